@@ -31,3 +31,12 @@ if "Invariant NoBad is violated" not in log:
     print("SELFTEST FAILED: the small-format model no longer finds the pinned exp reduction defect\n" + log[-1500:])
     sys.exit(1)
 print("selftest ok: MC_Small finds the pinned exp-reduction assertion failure (negative control)")
+
+# second negative control: the PINNED exp2 scaling (each word scaled separately, no renormalisation) must produce
+# an overlapping pair somewhere just above the subnormal range (defect fixed by c0e5c2b, found by modelling)
+rc, log, dt = check.tlc(["-workers", "1", "-config", "MC_P4_exp2scale_old.cfg", "MC_Small.tla"],
+                        {"XMX": "3g", "VERIF_SLICE": "0", "VERIF_NSLICES": "1"}, os.path.join(wd, "md_neg2"), 600)
+if "Invariant NoBad is violated" not in log or "scaled_pair_not_normalised" not in log:
+    print("SELFTEST FAILED: the small-format model no longer finds the pinned exp2 scaling defect\n" + log[-1500:])
+    sys.exit(1)
+print("selftest ok: MC_Small finds the pinned exp2 scaling defect (negative control)")
